@@ -455,7 +455,7 @@ Proof.
   destruct (find_if r pre) as [[[pre0 sif] between]|] eqn:Ei; [|discriminate].
   destruct sif as [| | | | | | |c rs th thy el ely]; try discriminate.
   destruct (index_of r (map fst rs)) as [idx|]; [|discriminate].
-  destruct (existsb (fun fv => mem_nat (snd fv) (flat_map top_defs between)) fs); [discriminate|].
+  destruct (existsb (fun fv => mem_nat (snd fv) (map fst rs ++ flat_map top_defs between)) fs); [discriminate|].
   destruct (existsb (fun s => stmt_launches_on r s) between); [discriminate|].
   destruct (existsb (fun s => negb (is_launch s) && stmt_launches_on r s) post); [discriminate|].
   set (yt := nth idx thy 0%nat) in *. set (ye := nth idx ely 0%nat) in *.
